@@ -400,6 +400,17 @@ func round(ctx *context, args []Datum) (retNum Datum) {
 	return NewNumDatum(rounded)
 }
 
+// roundHalfUp is XPath round() without the sign of a zero result: the
+// closest integer, ties towards positive infinity.  (Floor(x + 0.5) is wrong
+// where x + 0.5 is not representable.)
+func roundHalfUp(x float64) float64 {
+	rounded := math.Floor(x)
+	if x-rounded >= 0.5 {
+		rounded++
+	}
+	return rounded
+}
+
 func position(ctx *context, args []Datum) (retNum Datum) {
 	ctx.verifyArgNumAndTypes("position",
 		args, []DatumTypeChecker{})
@@ -452,8 +463,8 @@ func substring(ctx *context, args []Datum) (retLit Datum) {
 	// Doing this in floating point gives NaN, the infinities, negative
 	// and fractional arguments the meaning the standard prescribes (a
 	// float to int conversion is not defined for them).
-	first := math.Floor(num1 + 0.5)
-	last := first + math.Floor(num2+0.5)
+	first := roundHalfUp(num1)
+	last := first + roundHalfUp(num2)
 	substr := make([]rune, 0, substrLen)
 	for i, c := range chars {
 		if p := float64(i + 1); p >= first && p < last {
